@@ -5,7 +5,7 @@ use super::generate::Class;
 use super::{Replay, WorkerSummary};
 use crate::evidence::Evidence;
 use crate::known::Known;
-use crate::pool::{self, PoolError};
+use crate::pool;
 use serde_json::json;
 use std::path::PathBuf;
 use std::time::Instant;
@@ -143,14 +143,24 @@ pub fn run_check(property: &str, tier: &str) -> i32 {
             );
         }
     }
-    let results: Vec<WorkerSummary> = match pool::run_workers(argvs, true) {
-        Ok(r) => r,
-        Err(PoolError::Harness(e)) => harness_fail(&e),
-    };
+    let detailed: Vec<Result<WorkerSummary, pool::WorkerFailure>> = pool::run_workers_detailed(argvs, true);
     let mut sum = WorkerSummary::default();
-    for r in results {
-        sum.merge(r);
+    let mut crashes: Vec<super::Replay> = Vec::new();
+    for r in detailed {
+        match r {
+            Ok(s) => sum.merge(s),
+            Err(f) if f.signal.is_some() => {
+                // the worker process died: the code under test crashed (stack overflow, abort).
+                // Isolate the run, one process per history.
+                match isolate_crash(&f, property) {
+                    Some(rep) => crashes.push(rep),
+                    None => harness_fail(&format!("worker died with signal {:?} but no single run reproduces it: {}", f.signal, f.output)),
+                }
+            }
+            Err(f) => harness_fail(&format!("worker {:?} failed ({:?}): {}", f.argv, f.code, f.output)),
+        }
     }
+    sum.violations.extend(crashes);
     if !sum.harness_errors.is_empty() {
         for e in sum.harness_errors.iter().take(5) {
             eprintln!("HARNESS-ERROR: {e}");
@@ -158,10 +168,15 @@ pub fn run_check(property: &str, tier: &str) -> i32 {
         return 2;
     }
 
-    // ---- sampled determinism self-test (two executions in different processes/partitions)
-    let det_runs = match super::selftest::compare(c.class, 96, 3, 2) {
-        Ok(n) => n,
-        Err(e) => harness_fail(&format!("nondeterminism detected: {e}")),
+    // ---- sampled determinism self-test (two executions in different processes/partitions);
+    // pointless once the property is already known to be violated on this tree
+    let det_runs = if sum.violations.is_empty() {
+        match super::selftest::compare(c.class, 96, 3, 2) {
+            Ok(n) => n,
+            Err(e) => harness_fail(&format!("nondeterminism detected: {e}")),
+        }
+    } else {
+        0
     };
 
     // ---- violations: minimise, persist, classify against known findings
@@ -268,7 +283,68 @@ pub fn run_check(property: &str, tier: &str) -> i32 {
     i32::from(reported > 0)
 }
 
+/// A worker died by a signal: find the first run of its range that kills a fresh process.
+fn isolate_crash(f: &pool::WorkerFailure, property: &str) -> Option<Replay> {
+    let get = |flag: &str| f.argv.iter().position(|a| a == flag).and_then(|i| f.argv.get(i + 1)).cloned();
+    let class = super::generate::Class::parse(&get("--class")?)?;
+    let from: u64 = get("--from")?.parse().ok()?;
+    let to: u64 = get("--to")?.parse().ok()?;
+    let tier = get("--tier").unwrap_or_else(|| "quick".into());
+    let plan = super::plan_for(class, &tier);
+    let mut i = from;
+    while i < to {
+        let batch: Vec<u64> = (i..to.min(i + 32)).collect();
+        let argvs: Vec<Vec<String>> = batch
+            .iter()
+            .map(|k| {
+                ["worker", "e1", "--class", &format!("{class:?}"), "--from", &k.to_string(), "--to", &(k + 1).to_string(), "--tier", &tier, "--props", property, "--id", &format!("iso{k}")]
+                    .iter()
+                    .map(|s| (*s).to_string())
+                    .collect()
+            })
+            .collect();
+        let res: Vec<Result<WorkerSummary, pool::WorkerFailure>> = pool::run_workers_detailed(argvs, true);
+        for (k, r) in batch.iter().zip(res) {
+            if let Err(fail) = r {
+                if fail.signal.is_some() {
+                    let seed = crate::rng::run_seed(crate::global_seed(), &format!("e1-{class:?}"), *k);
+                    let (history, _) = super::generate::gen_history(seed, class, plan.max_steps);
+                    return Some(Replay {
+                        engine: "e1".into(),
+                        property: property.into(),
+                        class,
+                        seed,
+                        run_index: *k,
+                        chaos: plan.chaos_every > 0 && k % plan.chaos_every == plan.chaos_every - 1,
+                        rd_perm: true,
+                        minimised_from_steps: history.ops.len(),
+                        history,
+                        violation: super::check::Violation {
+                            properties: vec![property.into()],
+                            invariant: "I-crash".into(),
+                            step: 0,
+                            op: String::new(),
+                            detail: vec![format!(
+                                "the process executing this history died with signal {:?} (the code under test crashed, e.g. unbounded recursion): {}",
+                                fail.signal, fail.output
+                            )],
+                            signature: "I-crash".into(),
+                        },
+                        shim_ring: None,
+                    });
+                }
+            }
+        }
+        i += 32;
+    }
+    None
+}
+
 pub fn minimise_in_worker(v: &Replay) -> Replay {
+    if v.violation.invariant == "I-crash" {
+        // every candidate would have to be tried in its own process; keep the history as found
+        return v.clone();
+    }
     let dir = crate::scratch_root();
     let _ = std::fs::create_dir_all(&dir);
     let inp = dir.join(format!("min-in-{}.json", v.run_index));
